@@ -89,7 +89,7 @@ def runConc (s : S) (bid order readers sched : String) : S × String :=
     let eff := match c3.threads[0]? with
       | some (.committer m) => (match m.pc with | .done true => true | _ => false)
       | _ => false
-    let bc' := if eff then { bc with cache := [] } else bc
+    let bc' := if eff then { bc with cache := [], committed := true } else bc
     let rs := (c3.results.drop 1).zipIdx.map (fun (r, i) =>
       let v := match r with
         | some (some v) => "hit:" ++ v
